@@ -15,7 +15,7 @@ import regex
 import functools
 import schedula as sh
 from . import Token
-from ..errors import TokenError
+from ..errors import TokenError, FormulaError
 from .parenthesis import _update_n_args
 
 maxcol = 16384
@@ -399,7 +399,12 @@ class Range(Operand):
             ctx.pop('sheet', None)
             self.attr['is_reference'] = True
 
-        return range2parts(None, **ctx)
+        try:
+            return range2parts(None, **ctx)
+        except sh.DispatcherError:
+            if ctx.get('anchor'):  # E.g., `ANCHORARRAY(A1:B2)`: not one cell.
+                raise FormulaError()
+            raise
 
     def __repr__(self):
         if self.attr.get('is_ranges', False):
